@@ -79,22 +79,36 @@ def _order(N, *preds):
 
 @rule('C10', 'C10.R1', 'BaseTransfer.restrict: tau_c = Rcoll R(dt Q_f F_f) - dt Q_c F_c(R u) (+ Rcoll R tau_f); coarse f from the restricted u; uold/fold are final copies', floor=12)
 def r1(ctx, R):
+    _restrict_checks(ctx, R, BT, 'BaseTransfer', mass=False)
+
+
+def _restrict_checks(ctx, R, rel, cn, mass):
+    """clause-by-clause decision of a restrict() implementation; `mass` selects the documented variations of the mass-matrix
+    sibling: node values are PROJECTED, both integrals are turned into defects M u - dt Q F, tau is coarse defect - restricted
+    fine defect, and on the finest level the coarse u[0] finally holds the restricted M u0"""
     repo = ctx.repo
-    fn, N = _norm(repo, BT, 'BaseTransfer', 'restrict')
-    w = f'{BT}:BaseTransfer.restrict'
+    fn, N = _norm(repo, rel, cn, 'restrict')
+    w = f'{rel}:{cn}.restrict'
     R.fn(w)
+    SPU = 'project' if mass else 'restrict'
     C = N.contribs
     def one(pred, what):
         xs = [c for c in C if pred(c)]
         return xs
 
     # (b) spatial restriction of every fine node value
-    ru = one(lambda c: c.rhs == f'self.space_transfer.restrict({F}.u[i1])' and re.fullmatch(r'\w+\[i1 - 1\]', c.target), 'R(F.u[m])')
+    ru = one(lambda c: c.rhs == f'self.space_transfer.{SPU}({F}.u[i1])' and re.fullmatch(r'\w+\[i1 - 1\]', c.target), 'R(F.u[m])')
     ok = len(ru) == 1 and str(ru[0].loops[0].hi) == MF
     R.check(ok, 'restrict :: every fine node value is restricted in space', w, f'tmp[m-1] = space.restrict(F.u[m]) for m = 1..{MF}', [c.describe() for c in ru])
     tmpu = ru[0].target.split('[')[0] if ru else 'tmp_u'
     u0 = one(lambda c: c.target == f'{G}.u[0]', '')
-    R.check(len(u0) == 1 and u0[0].rhs == f'self.space_transfer.restrict({F}.u[0])', 'restrict :: coarse u[0] is the restricted fine u[0]', w, 'G.u[0] = space.restrict(F.u[0])', [c.describe() for c in u0])
+    if mass:
+        ok0 = len(u0) == 2 and u0[0].rhs == f'self.space_transfer.project({F}.u[0])' and u0[1].rhs == f'self.space_transfer.restrict({F}.prob.apply_mass_matrix({F}.u[0]))' and f'{F}.level_index == 0' in u0[1].guards and all(C.index(u0[1]) > C.index(c) for c in C if c.target.startswith((f'{G}.uold[', f'{G}.fold[', f'{G}.tau[')))
+        R.check(ok0, 'restrict :: coarse u[0] is the projected fine u[0]; on the finest level it is finally replaced by the restricted M u0 (after tau and the uold/fold copies were taken)', w, 'G.u[0] = space.project(F.u[0]) ... G.u[0] = space.restrict(M_f F.u[0]) if F.level_index == 0', [c.describe() for c in u0])
+        mass_u0 = u0[1] if len(u0) == 2 else None
+        u0 = u0[:1]
+    else:
+        R.check(len(u0) == 1 and u0[0].rhs == f'self.space_transfer.restrict({F}.u[0])', 'restrict :: coarse u[0] is the restricted fine u[0]', w, 'G.u[0] = space.restrict(F.u[0])', [c.describe() for c in u0])
     # (c) collocation restriction with the full row of Rcoll
     rs = _row_sum(N, f'{G}.u[i1]', 'self.Rcoll')
     ok = rs is not None and 'error' not in rs and rs['rows'] == {'i1-1'} and rs['vec'] == {tmpu} and rs['lo'] == Affine(0) and rs['hi'] == Affine(-1, {MF: 1}) and rs['signs'] == {1} and rs['ops'].count('=') <= 1
@@ -109,11 +123,18 @@ def r1(ctx, R):
     tg = one(lambda c: c.rhs == f'{G}.sweep.integrate()', '')
     tf = one(lambda c: c.rhs == f'{F}.sweep.integrate()', '')
     idx = {id(c): i for i, c in enumerate(C)}
-    last_uf = max([idx[id(c)] for c in C if c.target.startswith(f'{G}.u[') or c.target.startswith(f'{G}.f[')] or [-1])
+    last_uf = max([idx[id(c)] for c in C if (c.target.startswith(f'{G}.u[') or c.target.startswith(f'{G}.f[')) and not (mass and c is mass_u0)] or [-1])
     ok = len(tg) == 1 and len(tf) == 1 and all(idx[id(c)] < idx[id(tg[0])] for c in (fn_ + f0 + (rs['contribs'] if rs and 'contribs' in rs else [])))
     R.check(ok, 'restrict :: coarse integral dt Q_c F_c(R u) is taken AFTER coarse u and f are final', w, 'tauG = G.sweep.integrate() after the last write to G.u / G.f', [c.describe() for c in tg])
     tGn = tg[0].target if tg else 'tauG'
     tFn = tf[0].target if tf else 'tauF'
+    if mass:
+        # both integrals are turned into defects M u - dt Q F before they are combined
+        dG = one(lambda c: c.target == f'{tGn}[i1 - 1]' and c.op == '=', '')
+        dF = one(lambda c: c.target == f'{tFn}[i1 - 1]' and c.op == '=', '')
+        okd = len(dG) == 1 and dG[0].describe().startswith(f'{tGn}[i1 - 1] = +{G}.prob.apply_mass_matrix({G}.u[i1]) -{tGn}[i1 - 1] for i1=1..{MG}') and len(dF) == 1 and dF[0].describe().startswith(f'{tFn}[i1 - 1] = +{F}.prob.apply_mass_matrix({F}.u[i1]) -{tFn}[i1 - 1] for i1=1..{MF}')
+        okd = okd and idx[id(dG[0])] > idx[id(tg[0])] and idx[id(dF[0])] > idx[id(tf[0])]
+        R.check(okd, 'restrict :: coarse and fine integrals become the defects M u[n] - (dt Q F)[n] on their own level, for every node', w, 'tauG[n-1] = M_c G.u[n] - tauG[n-1]; tauF[m-1] = M_f F.u[m] - tauF[m-1]', [c.describe()[:150] for c in dG + dF])
     # (f) fine integral restricted in space, then full row of Rcoll
     rt = one(lambda c: c.rhs == f'self.space_transfer.restrict({tFn}[i1 - 1])', '')
     ok = len(rt) == 1 and str(rt[0].loops[0].hi) == MF
@@ -126,9 +147,11 @@ def r1(ctx, R):
         terms = dict((f[0], s) for s, f in tau_def[0].terms if len(f) == 1)
         plus = [k for k, s in terms.items() if s > 0]
         minus = [k for k, s in terms.items() if s < 0]
+        if mass:
+            plus, minus = minus, plus  # defects: tau = coarse defect - restricted fine defect
         ok = len(plus) == 1 and minus == [f'{tGn}[i1 - 1]'] and re.fullmatch(r'\w+\[i1 - 1\]', plus[0]) is not None
         tfg = plus[0].split('[')[0] if ok else None
-    R.check(ok, 'restrict :: tau[n] = + restricted fine integral[n] - coarse integral[n]', w, f'G.tau[n] = tauFG[n] - {tGn}[n]', [c.describe() for c in tau_def])
+    R.check(ok, 'restrict :: tau[n] = + restricted fine integral[n] - coarse integral[n]' if not mass else 'restrict :: tau[n] = + coarse defect[n] - restricted fine defect[n]', w, f'G.tau[n] = tauFG[n] - {tGn}[n]' if not mass else f'G.tau[n] = {tGn}[n] - tauFG[n]', [c.describe() for c in tau_def])
     if tfg:
         rs2 = _row_sum(N, f'{tfg}[i1 - 1]', 'self.Rcoll')
         ok = rs2 is not None and 'error' not in rs2 and rs2['rows'] == {'i1-1'} and rs2['vec'] == {tmpt} and rs2['lo'] == Affine(0) and rs2['hi'] == Affine(-1, {MF: 1}) and rs2['signs'] == {1}
@@ -170,6 +193,12 @@ def _prolong_checks(R, repo, rel, cn, meth, exact=True):
             if re.fullmatch(rx, arg):
                 got[k] = c
     R.check(set(got) == set(want) and len(pro) == len(want), f'{cn}.{meth} :: only the coarse correction (new - old) is prolonged', w, sorted(want), [c.rhs for c in pro])
+    if exact:
+        # the list of prolonged corrections is aligned with the nodes: entry m-1 holds the correction of node m, for every coarse node
+        for k, c in got.items():
+            arg_idx = re.fullmatch(want[k], c.rhs[len('self.space_transfer.prolong('):-1]).group(1)
+            ok = re.fullmatch(r'\w+\[i1 - 1\]', c.target) is not None and arg_idx == 'i1' and len(c.loops) == 1 and repr(c.loops[0]) == f'i1=1..{MG}'
+            R.check(ok, f'{cn}.{meth} :: prolonged {k}-corrections are collected for every coarse node m = 1..M_c at list position m-1', w, f'tmp[m-1] = prolong(G.{k}[m] - G.{k}old[m]) for m = 1..M_c', c.describe()[:160])
     # it is ADDED to the fine values
     for k in want:
         tgt = [c for c in C if re.match(rf'{re.escape(FF)}\.{k}\[', c.target) and c.op in ('=', '+=') and not (c.rhs or '').startswith(f'{FF}.prob.eval_f')]
@@ -311,3 +340,9 @@ def _a2(h, node, within):
             if isinstance(l, ast.For) and ast.unparse(l.iter) == 'local_MS_running':
                 return h.cfg.node_of[id(l)]
     return node
+
+
+@rule('C10', 'C10.R5', 'mass-matrix transfer: restrict decided clause by clause like the base class, with its documented variations (values projected, M u - dt Q F defects on both levels, tau = coarse defect - restricted fine defect, restricted M u0 on the finest level)', floor=12)
+def r5(ctx, R):
+    rel, cn = SIBS[1]
+    _restrict_checks(ctx, R, rel, cn, mass=True)
